@@ -100,8 +100,8 @@ def job_conf(job):
         if mode == "one":
             # one-label graphs over the whole snapshot range, every path type (exact oracle: 1 iff the node reaches another)
             combos = [(ts[0], ts[-1] - ts[0], p) for p in PTYPES] if ts else []
-        elif tier == "quick":
-            combos = rng.sample(combos, min(len(combos), 8))
+        elif tier in ("quick", "slide"):
+            combos = rng.sample(combos, min(len(combos), 8 if tier == "quick" else 3))
         else:
             combos = rng.sample(combos, min(len(combos), 40))
         es = []
@@ -112,7 +112,9 @@ def job_conf(job):
                  "rv": _dc(gv, L, s, d, p, nprof)[1], "rn": _dc(gn, L2, s, d, p, nprof)[1], "one": _dc(g1, L, s, d, p, nprof)[1]}
             es.append(e)
         ss = []
-        for (d, p) in rng.sample([(d, p) for d in range(0, 3) for p in PTYPES], 0 if mode == "one" else (2 if tier == "quick" else 6)):
+        nsl = 0 if mode == "one" else (len(PTYPES) if tier == "slide" else (2 if tier == "quick" else 6))
+        for (d, p) in ([(rng.choice([1, 2, 3]), p) for p in PTYPES] if tier == "slide" else
+                       rng.sample([(d, p) for d in range(0, 3) for p in PTYPES], nsl)):
             s = {"delta": d, "ptype": p, "sl": [], "per": []}
             try:
                 with contextlib.redirect_stderr(io.StringIO()):   # progress bars
@@ -203,6 +205,18 @@ def run(prop, tier, seed):
                 tr.add((a, b, rng.randint(0, tm)))
         if tr:
             jobs.append((rng.randrange(1 << 30), sorted(tr), "int", "str", "quick", list(range(1, nn + 1)), rng.choice(["mixed", "one"]), True))
+    # late shortcuts: a pair that meets directly only after it was already connected through others (the path types give
+    # different distances); every path type in the sliding comparison
+    for _ in range(12 if tier == "quick" else 200):
+        nn = rng.choice([4, 5])
+        perm = rng.sample(range(1, nn + 1), nn)
+        a, b, c = perm[0], perm[1], perm[2]
+        tr = {(a, b, 1), (b, a, 1), (b, c, 2), (c, b, 2), (a, c, 4), (c, a, 4)}
+        for _ in range(rng.randint(2, 5)):
+            x, y = rng.sample(range(1, nn + 1), 2)
+            t = rng.randint(0, 6)
+            tr |= {(x, y, t), (y, x, t)}
+        jobs.append((rng.randrange(1 << 30), sorted(tr), "int", "str", "slide", list(range(1, nn + 1))))
     # 4 nodes, every pair present at no or exactly one instant of 0..3 (15,625 graphs): one-label oracle
     graphs4 = [tr for (d, tr) in _graphs(chk, "MC_paths_sparse4_gen.cfg" if tier == "quick" else "MC_paths_sparse4.cfg") if tr]
     if tier == "quick":
